@@ -231,8 +231,24 @@ func c03Run(c *core.Ctx) {
 				if gen.Marshal(r) == gen.Marshal(cur) {
 					continue
 				}
-				if !try(gen.Marshal(gen.Replace(doc, p, r)), fmt.Sprintf("%s=%s", p, gen.Marshal(r))) {
+				mutated := gen.Replace(doc, p, r)
+				if !try(gen.Marshal(mutated), fmt.Sprintf("%s=%s", p, gen.Marshal(r))) {
 					return
+				}
+				// the same mutation hidden from validation: the section holding it is written first, the
+				// intact section after it under the same key, or the mutated one under a key that differs in
+				// letter case only
+				if len(p.Path) >= 2 {
+					sec, _ := p.Path[0].(string)
+					if mm, ok := mutated.(map[string]interface{}); ok && sec != "" {
+						for _, firstKey := range []string{sec, strings.ToUpper(sec[:1]) + sec[1:]} {
+							if t, ok := gen.ShadowSection(doc, sec, firstKey, mm[sec]); ok {
+								if !try(t, fmt.Sprintf("%s=%s <in a %q section written before the intact one>", p, gen.Marshal(r), firstKey)) {
+									return
+								}
+							}
+						}
+					}
 				}
 			}
 			if len(p.Path) > 0 {
